@@ -102,6 +102,8 @@ def prec(e):
         return PREC["not"]
     if k == "neg":
         return PREC["neg"]
+    if k == "sdiv":
+        return PREC["mul"]
     return PREC["atom"]
 
 
@@ -154,6 +156,14 @@ def render(e, prof="portable", mode="min"):
         op = e[1]
         p = prec(e)
         return f"{child(e[2], p, False, op)} {op} {child(e[3], p, True, op)}"
+    if k == "sdiv":
+        # division with SQLite's meaning (NULL for a zero divisor); DuckDB would give inf, so the generator's own DuckDB
+        # text writes the guard out
+        p = PREC["mul"]
+        right = child(e[2], p, True, "/")
+        if prof == "duckdb":
+            right = f"NULLIF({R(e[2])}, 0)"
+        return f"{child(e[1], p, False, '/')} / {right}"
     if k == "neg":
         inner = child(e[1], PREC["neg"])
         if inner.startswith("-"):
@@ -939,6 +949,18 @@ class Gen:
                 else:
                     q.projs.append((e, alias))
                     q.out.append((alias, ty, self.prov(e, scope)))
+            if f.get("real_div") and self.chance(f["real_div"]):
+                # a chain of real-valued divisions / multiplications (a * 1.0 / b / c): zero divisors occur in the data.
+                # Projected only (never compared or fed to %), typed INT for ordering purposes
+                ops = [self.colref(scope, INT) or ("lit", 1, INT) for _ in range(self.pick([2, 3, 3, 4]))]
+                e = ("bin", "*", ops[0], ("raw", "1.0"))
+                for o in ops[1:]:
+                    o = o if self.chance(0.8) else ("paren", ("bin", "-", o, ("lit", self.pick([0, 1, 2]), INT)))
+                    e = ("sdiv", e, o) if self.chance(0.67) else ("bin", "*", e, o)
+                alias = self.new_alias("p")
+                q.projs.append((e, alias))
+                q.out.append((alias, INT, self.prov(e, scope)))
+                self.tags.add("arith:real-division-chain")
             for mname, mty, msrcs in (getattr(q, "natural_merged", None) or []):
                 # (only while the name is not ambiguous again: no relation joined later carries it too)
                 holders = {s2.alias for s2 in scope if any(c2[0] == mname for c2 in s2.cols)}
